@@ -252,6 +252,8 @@ pub mod sync;
 #[doc(hidden)]
 pub mod test_utils;
 pub mod utils;
+#[cfg(p2panda_p2panda_verif)]
+pub mod verif;
 pub mod watchers;
 
 #[cfg(feature = "address_book")]
